@@ -20,6 +20,7 @@ void fiber_mark_completed(fiber_t* the_fiber, void* result) {
   if (the_fiber->detach_state != FIBER_DETACH_DETACHED) {
     const int old_state =
         atomic_exchange(&the_fiber->detach_state, FIBER_DETACH_WAIT_FOR_JOINER);
+    FIBER_VERIF_POINT(FV_COMPLETION_CLAIMED, the_fiber, old_state);
     if (old_state == FIBER_DETACH_NONE) {
       // need to wait until another fiber joins this one
       fiber_manager_set_and_wait(fiber_manager_get(),
@@ -144,6 +145,7 @@ int fiber_join(fiber_t* f, void** result) {
 
   const int old_state =
       atomic_exchange(&f->detach_state, FIBER_DETACH_WAIT_TO_JOIN);
+  FIBER_VERIF_POINT(FV_JOIN_CLAIMED, f, old_state);
   if (old_state == FIBER_DETACH_NONE) {
     // need to wait till the fiber finishes
     fiber_manager_t* const manager = fiber_manager_get();
@@ -193,6 +195,7 @@ int fiber_tryjoin(fiber_t* f, void** result) {
     // some other fiber
     const int old_state =
         atomic_exchange(&f->detach_state, FIBER_DETACH_WAIT_TO_JOIN);
+    FIBER_VERIF_POINT(FV_JOIN_CLAIMED, f, old_state);
     if (old_state == FIBER_DETACH_WAIT_FOR_JOINER) {
       // the other fiber is waiting for us to join
       if (result) {
@@ -220,6 +223,7 @@ int fiber_detach(fiber_t* f) {
   }
   const int old_state =
       atomic_exchange(&f->detach_state, FIBER_DETACH_DETACHED);
+  FIBER_VERIF_POINT(FV_JOIN_CLAIMED, f, old_state);
   if (old_state == FIBER_DETACH_WAIT_FOR_JOINER ||
       old_state == FIBER_DETACH_WAIT_TO_JOIN) {
     // wake up the fiber or the fiber trying to join it (this second case is a
